@@ -376,10 +376,23 @@ struct Worker {
     waker: Waker,
     sh: Arc<Shared>,
     max_data: u64,
+    /// after a big send_data: reset / drop that stream a few operations later (aims at the window in which its DATA frame is
+    /// with the codec while the connection task holds no lock)
+    follow: Option<(usize, u64)>,
 }
 
 impl Worker {
     fn gen_op(&mut self) -> Value {
+        if let Some((h, n)) = self.follow {
+            if n == 0 {
+                self.follow = None;
+                if self.handles[h].send.is_some() {
+                    return if self.rng.chance(2, 3) { json!({"op":"send_reset","h":h,"code":8}) } else { json!({"op":"drop_send","h":h}) };
+                }
+            } else {
+                self.follow = Some((h, n - 1));
+            }
+        }
         let r = self.rng.below(100);
         let live: Vec<usize> = (0..self.handles.len())
             .filter(|&i| self.handles[i].send.is_some() || self.handles[i].recv.is_some() || self.handles[i].resp.is_some())
@@ -411,6 +424,9 @@ impl Worker {
                     5..=7 => self.rng.range(800, 5000.min(self.max_data.max(801))),
                     _ => self.rng.range(1000, self.max_data.max(1001)),
                 };
+                if len >= 1024 && self.follow.is_none() && self.rng.chance(1, 3) {
+                    self.follow = Some((h, self.rng.below(4)));
+                }
                 json!({"op":"send_data","h":h,"len":len,"eos": self.rng.chance(1, 7)})
             } else if k < 52 {
                 json!({"op":"reserve","h":h,"n": *self.rng.pick(&[0u64, 1, 100, 1000, 5000, 20000, 70000])})
@@ -873,6 +889,7 @@ fn run_one(seed: u64, i: u64, workers: usize, n_ops: usize) -> Value {
             waker: Waker::from(Arc::new(CountWaker(AtomicU64::new(0)))),
             sh: sh.clone(),
             max_data,
+            follow: None,
         };
         hs.push(std::thread::spawn(move || wk.run(n_ops)));
     }
